@@ -72,3 +72,99 @@ Qed.
 Theorem keep_intervals_rejects srt ivs t :
   intervals_ok 0 (t_L t) ivs = false -> keep_intervals srt ivs t = Err 1.
 Proof. intros H. unfold keep_intervals, keep_intervals_presort. rewrite H. reflexivity. Qed.
+
+(* ------------------------------------------------------------------------- *)
+(* the time-cut operations                                                     *)
+
+Definition time_refs_ok (tb : tables) : Prop :=
+  (forall e, In e (t_edges tb) -> 0 <= e_child e < zlen (t_nodes tb) /\ 0 <= e_parent e < zlen (t_nodes tb)) /\
+  (forall m, In m (t_muts tb) -> m_time m = None -> 0 <= m_node m < zlen (t_nodes tb)) /\
+  (forall m, In m (t_muts tb) -> -1 <= m_parent m < zlen (t_muts tb)) /\
+  (forall m, In m (t_muts tb) -> 0 <= m_site m < zlen (t_sites tb)).
+
+Lemma get_ntime_total ns u : 0 <= u < zlen ns -> exists v, get (map n_time ns) u = Ok v.
+Proof. intros H. apply get_total. unfold zlen in *. rewrite map_length. exact H. Qed.
+
+Lemma mut_time_total ns m :
+  (m_time m = None -> 0 <= m_node m < zlen ns) -> exists v, mut_time (map n_time ns) m = Ok v.
+Proof. unfold mut_time. destruct (m_time m); intros H; [eauto | apply get_ntime_total; auto]. Qed.
+
+Lemma older_muts_total ns t ms : forall next,
+  (forall m, In m ms -> m_time m = None -> 0 <= m_node m < zlen ns) ->
+  exists out mp, older_muts t (map n_time ns) next ms = Ok (out, mp)
+                 /\ length mp = length ms /\ (forall m, In m out -> In m ms).
+Proof.
+  induction ms as [|m ms IH]; intros next H; simpl.
+  - exists [], []. repeat split; auto.
+  - destruct (mut_time_total ns m (H m (or_introl eq_refl))) as [v Hv]. rewrite Hv. simpl.
+    destruct (v <? t).
+    + destruct (IH (next + 1)) as (out & mp & E & L & I); [intros; apply H; auto; right; assumption|].
+      rewrite E. simpl. exists (m :: out), (next :: mp). split; [reflexivity|]. split; [simpl; congruence|].
+      intros m0 [<-|H0]; [left; reflexivity | right; apply I, H0].
+    + destruct (IH next) as (out & mp & E & L & I); [intros; apply H; auto; right; assumption|].
+      rewrite E. simpl. exists out, ((-1) :: mp). split; [reflexivity|]. split; [simpl; congruence|].
+      intros m0 H0. right. apply I, H0.
+Qed.
+
+Theorem delete_older_total t tb : time_refs_ok tb -> exists tb', delete_older t tb = Ok tb'.
+Proof.
+  intros (Re & Rn & Rp & _). unfold delete_older.
+  destruct (mapM_total (fun e => do tp <- get (map n_time (t_nodes tb)) (e_parent e); Ok (tp <=? t)) (t_edges tb)) as [ke Hke].
+  { intros e He. destruct (get_ntime_total (t_nodes tb) (e_parent e)) as [v Hv]; [apply Re, He|].
+    rewrite Hv. simpl. eauto. }
+  rewrite Hke. simpl.
+  destruct (older_muts_total (t_nodes tb) t (t_muts tb) 0 Rn) as (out & mp & E & L & I).
+  rewrite E. simpl.
+  destruct (mapM_total (fun m => if m_parent m =? -1 then Ok m else
+                                  do p <- get mp (m_parent m);
+                                  Ok (mkM (m_site m) (m_node m) p (m_time m) (m_der m) (m_md m))) out) as [ms' Hms].
+  { intros m Hm. destruct (m_parent m =? -1) eqn:P; [eauto|].
+    destruct (get_total mp (m_parent m)) as [p Hp].
+    { specialize (Rp m (I m Hm)). unfold zlen in *. rewrite L. lia. }
+    rewrite Hp. simpl. eauto. }
+  rewrite Hms. simpl. eauto.
+Qed.
+
+Lemma split_loop_total ns t es : forall next,
+  (forall e, In e es -> 0 <= e_child e < zlen ns /\ 0 <= e_parent e < zlen ns) ->
+  exists es' sp, split_loop t (map n_time ns) next es = Ok (es', sp).
+Proof.
+  induction es as [|e es IH]; intros next H; simpl; [eauto|].
+  destruct (H e (or_introl eq_refl)) as [Hc Hp].
+  destruct (get_ntime_total ns _ Hc) as [tc Htc]. destruct (get_ntime_total ns _ Hp) as [tp Htp].
+  rewrite Htc, Htp. simpl.
+  destruct ((tc <? t) && (t <? tp)).
+  - destruct (IH (next + 1)) as (es' & sp & E); [intros; apply H; right; assumption|]. rewrite E. simpl. eauto.
+  - destruct (IH next) as (es' & sp & E); [intros; apply H; right; assumption|]. rewrite E. simpl. eauto.
+Qed.
+
+Theorem split_edges_total srt t flags pop md npop tb :
+  t_migs tb = [] -> -1 <= pop < npop -> time_refs_ok tb ->
+  exists tb', split_edges srt t flags pop md npop tb = Ok tb'.
+Proof.
+  intros Mg Hpop (Re & Rn & _ & Rs). unfold split_edges.
+  replace (pop <? -1) with false by lia. rewrite Mg. simpl.
+  replace (pop >=? npop) with false by lia.
+  destruct (split_loop_total (t_nodes tb) t (t_edges tb) (zlen (t_nodes tb)) Re) as (es' & sp & E).
+  rewrite E. simpl.
+  destruct (mapM_total (split_mut t (map n_time (t_nodes tb)) (t_edges tb) (t_sites tb) sp) (t_muts tb)) as [ms' Hms].
+  { intros m Hm. unfold split_mut.
+    destruct (get_total (t_sites tb) (m_site m) (Rs m Hm)) as [st Hst]. rewrite Hst. simpl.
+    destruct (mut_time_total (t_nodes tb) m (Rn m Hm)) as [v Hv]. rewrite Hv. simpl.
+    destruct (match edge_above (t_edges tb) (s_pos st) (m_node m) with Some j => nth j sp None | None => None end);
+      [destruct (v >=? t)|]; eauto. }
+  rewrite Hms. simpl. eauto.
+Qed.
+
+Theorem split_edges_errors srt t flags pop md npop tb :
+  (pop < -1 -> split_edges srt t flags pop md npop tb = Err 1) /\
+  (-1 <= pop -> t_migs tb <> [] -> split_edges srt t flags pop md npop tb = Err 2) /\
+  (-1 <= pop -> t_migs tb = [] -> npop <= pop -> split_edges srt t flags pop md npop tb = Err 2).
+Proof.
+  unfold split_edges. split; [|split].
+  - intros H. replace (pop <? -1) with true by lia. reflexivity.
+  - intros H Hm. replace (pop <? -1) with false by lia.
+    destruct (t_migs tb); [congruence|]. reflexivity.
+  - intros H Hm Hn. replace (pop <? -1) with false by lia. rewrite Hm. simpl.
+    replace (pop >=? npop) with true by lia. reflexivity.
+Qed.
